@@ -10,7 +10,7 @@ PROOF_FILES = [f for f in ['theories/Base.v', 'theories/Chart.v', 'theories/Inte
 
 
 def main(tier, seed):
-    return icheck.run(PROP, tier, seed, genchart.Profile(p_guard=0.6, p_prio=0.6, same_source_boost=0.45, p_eventless=0.25, p_contract=0.1, n_trans=(5, 14), alt=[(0.2, genchart.parallel_profile(p_guard=0.6, p_prio=0.7, same_source_boost=0.45, unique_source_event=False)), (0.1, genchart.nested_parallel_chart)]), ifam.ScenarioSpec(p_queue=0.4, p_bits=0.25), icheck.interest_c01, PROOF_FILES, assumptions=['tree hypothesis Hanc (ancestors have smaller depth); guards are pure (WF8)'])
+    return icheck.run(PROP, tier, seed, genchart.Profile(p_varied_names=0.3, p_guard=0.6, p_prio=0.6, same_source_boost=0.45, p_eventless=0.25, p_contract=0.1, n_trans=(5, 14), alt=[(0.2, genchart.parallel_profile(p_guard=0.6, p_prio=0.7, same_source_boost=0.45, unique_source_event=False)), (0.1, genchart.nested_parallel_chart)]), ifam.ScenarioSpec(p_queue=0.4, p_bits=0.25), icheck.interest_c01, PROOF_FILES, assumptions=['tree hypothesis Hanc (ancestors have smaller depth); guards are pure (WF8)'])
 
 
 replay = icheck.replay
